@@ -13,7 +13,7 @@ from tlsa import selftest  # noqa: E402
 
 def main():
     props = set(sys.argv[1:])
-    vs = selftest.gen_textual() + selftest.gen_textual_twins()
+    vs = selftest.gen_textual() + selftest.gen_textual_twins() + selftest.gen_patch_variants()
     if props:
         vs = [v for v in vs if v.prop in props]
     stale = [v for v in vs if v.kind == "stale"]
